@@ -77,12 +77,12 @@ def diff_edges(got, want):
     return sorted(got - want), sorted(want - got)
 
 
-def simulate(g, assignment, ret_default=None, max_steps=200):
-    """Walk an EventGraph from ENTRY choosing, at each event node, the outgoing edge whose label is
-    compatible with assignment[role]. Returns the list of visited node names ending in RET(..) or None
-    when the walk is ambiguous/stuck. Labels: ''=unconditional; for bool events '0' is False, 'else' True;
-    other events are matched on the first component of the label."""
-    canon_edges = g.canon()
+def simulate(g, assignment, max_steps=400, edges=None):
+    """Walk an EventGraph from ENTRY choosing, at each event node, the outgoing edge compatible with
+    assignment[role]: a bool (True='else'/non-zero side, False='0'), an int/str (first label component),
+    or a callable(label)->bool. Nodes with a single unlabelled edge are passed through. Returns the list
+    of visited node names ending in RET(..), or None when stuck/ambiguous."""
+    canon_edges = edges if edges is not None else g.canon()
     out = {}
     for a, l, b in canon_edges:
         out.setdefault(a, []).append((l, b))
@@ -99,19 +99,23 @@ def simulate(g, assignment, ret_default=None, max_steps=200):
             cur = es[0][1]
             continue
         role = cur.split("#")[0]
-        want = assignment.get(role)
-        pick = None
+        want = assignment.get(cur, assignment.get(role))
+        picks = []
         for l, b in es:
             first = l.split(",")[0]
-            if want is True and first == "else":
-                pick = b
+            if callable(want):
+                if want(l):
+                    picks.append(b)
+            elif want is True and first == "else":
+                picks.append(b)
             elif want is False and first == "0":
-                pick = b
-            elif not isinstance(want, bool) and want is not None and first == str(want):
-                pick = b
-        if pick is None:
+                picks.append(b)
+            elif not isinstance(want, bool) and want is not None and (first == str(want) or l == str(want)):
+                picks.append(b)
+        picks = sorted(set(picks))
+        if len(picks) != 1:
             return None
-        cur = pick
+        cur = picks[0]
     return None
 
 
